@@ -416,7 +416,7 @@ func (p *parser) parsePostfix(x Expr) Expr {
 
 // ---- items
 
-var itemKW = map[string]bool{"spec": true, "pred": true, "func": true, "extern": true, "trusted": true, "lemma": true,
+var itemKW = map[string]bool{"opaque": true, "spec": true, "pred": true, "func": true, "extern": true, "trusted": true, "lemma": true,
 	"invariant": true, "monitor": true, "directive": true, "axiom": true, "owned": true}
 var clauseKW = map[string]bool{"requires": true, "ensures": true, "assigns": true, "decreases": true, "loop": true,
 	"behavior": true, "assumes": true, "ghost": true, "pure": true, "mayalloc": true, "prop": true, "cases": true,
@@ -502,8 +502,18 @@ func ParseFile(name, src string) (f *File, err error) {
 			cur, curLemma, curBeh, curMon = nil, nil, nil, nil
 		}
 		switch kw {
-		case "spec", "pred":
+		case "spec", "pred", "opaque":
 			sf := &SpecFunc{Pos: l.pos, Pred: kw == "pred", Text: l.text}
+			if kw == "opaque" {
+				// opaque pred / opaque spec func: a function symbol whose definition is supplied only
+				// for closed applications (inside quantifiers it stays uninterpreted)
+				sf.Opaque = true
+				kw = p.ident()
+				if kw != "pred" && kw != "spec" {
+					p.fail("expected 'opaque pred' or 'opaque spec func'")
+				}
+				sf.Pred = kw == "pred"
+			}
 			if kw == "spec" {
 				if p.ident() != "func" {
 					p.fail("expected 'spec func'")
